@@ -4,6 +4,8 @@ Each entry: (keyword in the commit subject, property, what failed before the fix
 import json, subprocess, os
 ROOT = os.path.dirname(os.path.dirname(os.path.abspath(__file__)))
 M = [
+ ('reports a trigger statement as unsupported instead of panicking', 'C02', '`import trigger minute from triggers; event fn cb(elapsed: int) { } fn main() { trigger cb at minute(5); }` on the interpreter: the statement switch has no case for trigger statements, host panic `A new statement kind (1) was added without updating this code`'),
+ ('skips type, template and trigger items when importing from a builtin module', 'C04', '`import trigger minute from triggers; fn main() { println(1); }` ended with the fatal `Unknown import \'trigger minute\' in module \'triggers\'` on the interpreter (the VM prints 1): importItem asked the host for a value for an item that is none'),
  ('interpreter implements the `->` and `~>` member operators', 'C02', '`let ao = new { n: 3 } as { ? }; let v = ao->n as ?int;` on the interpreter: memberExpression looked the name up in the builtin member table and ended in the host panic `Field \'n\' not found on value of type \'{ ? }\'` (every `->` / `~>` access)'),
  ('on a missing field pushes one value, not two', 'C01', '`let ao = new { ? }; println([?1, ao->nope as ?int, ?2]);` on the VM: Opcode_Member_Anyobj pushed `none` and then a second option built from the nil field (stack residue; inside a list literal the next hostcall hit a failed type assertion)'),
  ("see their module's globals, not the locals of their caller", 'C04', '`let total = 100; fn show() { println(total); } fn main() { let total = 0; show(); }` printed 0 on the interpreter (100 on the VM): a declared function ran on top of the scope stack of its caller, so a global shadowed by a local of the caller resolved to that local (dynamic scoping)'),
